@@ -162,10 +162,15 @@ CLAIMED = {
              "VM = vm_pu, VA = va_degree; _build_pp_gen gives PG = p_mw*scaling, VG = vm_pu, bus VM = vm_pu and the reactive box; "
              "write_pq_results_to_element reports p*scaling (q*scaling) for in-service sgens, loads, storages; "
              "write_voltage_dependend_load_results reports p*scaling*(cp + ci*v + cz*v^2) at the solved voltage of the load's own "
-             "bus. The Q-limit enforcement loop and the shunt law are only a bounded stand-in (native power flows on two fixed "
-             "networks incl. a two-round limiting cascade), labelled bounded.",
-        note="Assumed: A-SOLVE (Newton keeps reference / PV voltages), A-LOOKUP. Not decided deductively: "
-             "_run_ac_pf_with_qlims_enforced (needs a per-bus sum invariant), _get_shunt_results, motors, asymmetric elements."),
+             "bus. Shunts / wards / xwards (tables of any length): _calc_shunts_and_add_on_ppc gives every node the sum of "
+             "p_mw * step * (vn_bus / vn_shunt)^2 (missing vn_kv = bus voltage; pz_mw for wards) of the in-service elements at "
+             "that node, stored once per node; _get_shunt_results reports vm^2 times exactly that model power per element (added to "
+             "the constant-power part for wards) and adds the same powers to the bus sums grouped by the element's own bus. The "
+             "Q-limit enforcement loop is only a bounded stand-in (native power flows on two fixed networks incl. a two-round "
+             "limiting cascade), labelled bounded.",
+        note="Assumed: A-SOLVE (Newton keeps reference / PV voltages), A-LOOKUP, _sum_by_group (distinct keys with per-key sums). Not "
+             "decided deductively: _run_ac_pf_with_qlims_enforced (needs a per-bus sum invariant), step characteristic tables of "
+             "shunts, svc / ssc / vsc, trafo3w star losses, motors, asymmetric elements."),
     "C05": dict(
         text="Proof: the real _calc_line_parameter and _calc_switch_parameter write per-unit impedances whose physical value "
              "BR_R * V_N^2 / S_N is the ohmic value for every net.sn_mva (generic row); lemmas on the real branch_vectors: scaling "
